@@ -50,6 +50,11 @@ try:
     out["demo_clean_exit"] = rc0
     out["demo_patched_exit"] = rc1
     out["demo_patched_tail"] = o1.strip().splitlines()[-3:] if o1.strip() else []
+    touched = [l.split(" b/", 1)[1].strip() for l in open(os.path.join(seed, "patch.diff")) if l.startswith("diff --git ")]
+    if touched and all(t.startswith("src/") for t in touched):
+        # the suite imports the prebuilt extension modules from /venv: a change of the native sources cannot change its result
+        no_suite = True
+        out["suite_skipped"] = "patch touches only native sources (src/); the pinned suite runs the prebuilt extensions"
     if not no_suite:
         base = json.load(open("/root/.vp/BASELINE.json"))
         stable = set(base["stable_pass"])
